@@ -103,7 +103,7 @@ pub fn lex(song: &mut Song, src: &str, lineno: isize) -> Vec<Token> {
             'A'..='Z' | '_' => {
                 cur.prev();
                 cur.replace_char(ch); // a full-width letter is read as its half-width form (get_word would read nothing and never advance)
-                if cur.eq("End") || cur.eq("END") { // それ移行をコンパイルしない
+                if (cur.eq("End") || cur.eq("END")) && !matches!(cur.peek_n(3), 'A'..='Z' | 'a'..='z' | '_' | '0'..='9') { // それ移行をコンパイルしない
                     let last_comment = cur.cur2end();
                     cur.next_n(last_comment.len());
                     result.push(Token::new_empty(&last_comment, cur.line));
